@@ -783,6 +783,14 @@ func chunkSegment(init *mp4.InitSegment, seg *mp4.MediaSegment, segMeta segMeta,
 	chunks := make([]chunk, 0, segMeta.newDur/uint32(chunkDur))
 	trackID := init.Moov.Trak.Tkhd.TrackID
 	ch := createChunk(seg.Styp, trackID, segMeta.newNr)
+	// Event messages (e.g. SCTE-35) of the segment are carried by its first chunk
+	for _, f := range seg.Fragments {
+		for _, c := range f.Children {
+			if emsg, ok := c.(*mp4.EmsgBox); ok {
+				ch.frag.AddEmsg(emsg)
+			}
+		}
+	}
 	chunkNr := 1
 	var accChunkDur uint32 = 0
 	var totalDur = 0
